@@ -191,6 +191,13 @@ impl CelValue {
         CelValue::value_error(&format!("Integer overflow in '{}'", op))
     }
 
+    fn checked_time<T: Into<CelValue>>(val: Option<T>) -> CelValue {
+        match val {
+            Some(v) => v.into(),
+            None => CelValue::value_error("Time value out of range"),
+        }
+    }
+
     pub fn binding_error(sym_name: &str) -> CelValue {
         CelError::Binding {
             symbol: sym_name.to_owned(),
@@ -1296,12 +1303,14 @@ impl Add for CelValue {
                 }
                 CelValue::TimeStamp(v1) => {
                     if let CelValue::Duration(v2) = rhs {
-                        return CelValue::from_timestamp(v1 + v2);
+                        return CelValue::checked_time(v1.checked_add_signed(v2));
                     }
                 }
                 CelValue::Duration(v1) => match rhs {
-                    CelValue::TimeStamp(v2) => return CelValue::from_timestamp(v2 + v1),
-                    CelValue::Duration(v2) => return CelValue::Duration(v1 + v2),
+                    CelValue::TimeStamp(v2) => {
+                        return CelValue::checked_time(v2.checked_add_signed(v1))
+                    }
+                    CelValue::Duration(v2) => return CelValue::checked_time(v1.checked_add(&v2)),
                     _ => {}
                 },
                 _ => {}
@@ -1352,13 +1361,17 @@ impl Sub for CelValue {
                     }
                 }
                 CelValue::TimeStamp(v1) => match rhs {
-                    CelValue::Duration(v2) => return CelValue::from_timestamp(v1 - v2),
+                    CelValue::Duration(v2) => {
+                        return CelValue::checked_time(v1.checked_sub_signed(v2))
+                    }
                     CelValue::TimeStamp(v2) => return CelValue::from_duration(v1 - v2),
                     _ => {}
                 },
                 CelValue::Duration(v1) => match rhs {
-                    CelValue::TimeStamp(v2) => return CelValue::from_timestamp(v2 - v1),
-                    CelValue::Duration(v2) => return CelValue::from_duration(v1 - v2),
+                    CelValue::TimeStamp(v2) => {
+                        return CelValue::checked_time(v2.checked_sub_signed(v1))
+                    }
+                    CelValue::Duration(v2) => return CelValue::checked_time(v1.checked_sub(&v2)),
                     _ => {}
                 },
                 _ => {}
